@@ -551,6 +551,14 @@ func runHistory(c *rig.Ctx, cs Case, m mode) int {
 	before := e.snap(pool)
 	for i, o := range cs.Ops {
 		steps[i] = e.apply(o)
+		if o.Op == "loseBegin" && me != "" && steps[i].panicMsg == "" {
+			// client-go has told the elector that the lease of shard o.S is lost and the stop callback is running
+			// (held open): the leader table must already say so
+			if e.le.IsLeader(int(o.S)) || e.le.GetLeaders()[int(o.S)].Leader == me {
+				fail("judge", "c13.elector.leader-during-stop", fmt.Sprintf("op %d: while OnStoppedLeading(%d) runs, IsLeader(%d)=%v and GetLeaders names %q: the server still counts itself leader of a shard whose lease it has lost", i, o.S, o.S, e.le.IsLeader(int(o.S)), e.le.GetLeaders()[int(o.S)].Leader), i, nil, nil)
+				return v.flush(c, m)
+			}
+		}
 		after := e.snap(pool)
 		steps[i].Unchanged = sameStores(before, after)
 		steps[i].StoresAfter = after.shards
